@@ -200,6 +200,8 @@ Definition pub_shape (p : pub) : Prop :=
   | _ => True
   end.
 
+Definition no_hello (m : smsg) : bool := match m with SHello _ _ => false | _ => true end.
+
 Record Jh (h : hub) (g : ghost) : Prop := {
   j_keys : NoDup (map fst (h_sessions h));
   j_room0 : forall k r, room_of h k = Some r -> snd k <> 0;
@@ -209,9 +211,11 @@ Record Jh (h : hub) (g : ghost) : Prop := {
             get_sess h x = Some s -> s_room s = None \/ s_room s = Some (b, r);
   j_fresh_view : forall sid, h_nextsid h < sid -> g_view g sid = None;
   j_fresh_bind : forall c sid, g_bind g c = Some sid -> sid <= h_nextsid h;
+  j_live : forall sid s, get_sess h sid = Some s -> sid <= h_nextsid h;
   j_join : forall sid s, get_sess h sid = Some s -> s_join s <= h_clock h;
   j_backend : forall sid s k, get_sess h sid = Some s -> s_room s = Some k -> fst k = s_backend s;
   j_pc : forall sid s, get_sess h sid = Some s -> s_conn s <> None -> s_pending s = [];
+  j_nohello : forall sid s m, get_sess h sid = Some s -> In m (s_pending s) -> no_hello m = true;
   j_vconn : forall sid s, get_sess h sid = Some s -> is_virtual (s_kind s) = true -> s_conn s = None;
   j_cs : forall sid s c, get_sess h sid = Some s -> s_conn s = Some c ->
            exists cn, aget (h_conns h) c = Some cn /\ c_sess cn = Some sid;
@@ -276,11 +280,12 @@ Proof. unfold vcore. intros H. inversion H. repeat split; reflexivity. Qed.
 
 (* the queue may grow by messages that change no view, and only while there is no connection *)
 Definition pend_ok (s s' : session) : Prop :=
-  (s_conn s <> None -> s_pending s' = s_pending s) /\ (forall v, replay (s_pending s') v = replay (s_pending s) v).
-Lemma pend_ok_refl s : pend_ok s s.
-Proof. split; reflexivity. Qed.
+  (s_conn s <> None -> s_pending s' = s_pending s) /\ (forall v, replay (s_pending s') v = replay (s_pending s) v) /\
+  (forall m, In m (s_pending s') -> In m (s_pending s) \/ no_hello m = true).
 Lemma pend_ok_eq s s' : s_pending s' = s_pending s -> pend_ok s s'.
-Proof. intros H. split; intros; now rewrite H. Qed.
+Proof. intros H. unfold pend_ok. rewrite H. repeat split; auto. Qed.
+Lemma pend_ok_refl s : pend_ok s s.
+Proof. now apply pend_ok_eq. Qed.
 
 Record same (h h' : hub) : Prop := {
   sm_sess : forall x, option_map vcore (get_sess h' x) = option_map vcore (get_sess h x);
@@ -317,11 +322,13 @@ Proof.
      ?(sm_conns _ _ E2); apply E1).
   2: exact (N.le_trans _ _ _ (sm_clock _ _ E1) (sm_clock _ _ E2)).
   2: exact (N.le_trans _ _ _ (sm_nextsid _ _ E1) (sm_nextsid _ _ E2)).
-  intros x s1 s3 H1 H3. destruct (same_get' _ _ _ _ E1 H1) as (s2 & H2 & Hc2 & [A2 B2]).
-  destruct (sm_pend _ _ E2 x s2 s3 H2 H3) as [A3 B3]. apply vcore_eq in Hc2 as (_ & _ & _ & Hcn & _).
-  split.
+  intros x s1 s3 H1 H3. destruct (same_get' _ _ _ _ E1 H1) as (s2 & H2 & Hc2 & [H A2]).
+  destruct A2 as [B2 C2]. rename H into A2.
+  destruct (sm_pend _ _ E2 x s2 s3 H2 H3) as (A3 & B3 & C3). apply vcore_eq in Hc2 as (_ & _ & _ & Hcn & _).
+  split; [|split].
   - intros Hn. rewrite A3, A2; [reflexivity|exact Hn|congruence].
   - intros v. now rewrite B3, B2.
+  - intros m Hm. destruct (C3 m Hm) as [Hm'|]; [|now right]. apply C2, Hm'.
 Qed.
 
 Lemma mem_of_some h k M : mem_of h k = Some M <-> exists r, room_of h k = Some r /\ r_members r = M.
@@ -354,19 +361,23 @@ Proof.
       rewrite Hr. eapply j_asj; eauto.
     + intros sid Hs. pose proof (sm_nextsid _ _ E). apply H. lia.
     + intros c sid Hs. pose proof (sm_nextsid _ _ E). pose proof (j_fresh_bind _ _ H c sid Hs). lia.
+    + intros sid s' Hs. destruct (same_get _ _ _ _ E Hs) as (s & Hs0 & _). pose proof (sm_nextsid _ _ E).
+      pose proof (j_live _ _ H sid s Hs0). lia.
     + intros sid s' Hs. destruct (same_get _ _ _ _ E Hs) as (s & Hs0 & Hc & _). apply vcore_eq in Hc as (_ & _ & _ & _ & _ & Hj).
       rewrite Hj. pose proof (sm_clock _ _ E). pose proof (j_join _ _ H sid s Hs0). lia.
     + intros sid s' k Hs Hk. destruct (same_get _ _ _ _ E Hs) as (s & Hs0 & Hc & _). apply vcore_eq in Hc as (_ & Hb & Hr & _).
       rewrite Hb. eapply j_backend; eauto. congruence.
-    + intros sid s' Hs Hn. destruct (same_get _ _ _ _ E Hs) as (s & Hs0 & Hc & [Hp _]). apply vcore_eq in Hc as (_ & _ & _ & Hcn & _).
+    + intros sid s' Hs Hn. destruct (same_get _ _ _ _ E Hs) as (s & Hs0 & Hc & (Hp & _)). apply vcore_eq in Hc as (_ & _ & _ & Hcn & _).
       rewrite Hp by congruence. eapply j_pc; eauto. congruence.
+    + intros sid s' m Hs Hm. destruct (same_get _ _ _ _ E Hs) as (s & Hs0 & _ & (_ & _ & Hp)).
+      destruct (Hp m Hm) as [Hm'|]; [|assumption]. eapply (j_nohello _ _ H); eauto.
     + intros sid s' Hs Hv. destruct (same_get _ _ _ _ E Hs) as (s & Hs0 & Hc & _). apply vcore_eq in Hc as (Hk & _ & _ & Hcn & _).
       rewrite Hcn. eapply j_vconn; eauto. congruence.
     + intros sid s' c Hs Hcn. destruct (same_get _ _ _ _ E Hs) as (s & Hs0 & Hc & _). apply vcore_eq in Hc as (_ & _ & _ & Hcn' & _).
       rewrite (sm_conns _ _ E). eapply j_cs; eauto. congruence.
     + intros sid s' c Hs Hcn. destruct (same_get _ _ _ _ E Hs) as (s & Hs0 & Hc & _). apply vcore_eq in Hc as (_ & _ & _ & Hcn' & _).
       eapply j_bind; eauto. congruence.
-  - intros sid s' Hs Hv Hx. destruct (same_get _ _ _ _ E Hs) as (s & Hs0 & Hc & [_ Hp]).
+  - intros sid s' Hs Hv Hx. destruct (same_get _ _ _ _ E Hs) as (s & Hs0 & Hc & (_ & Hp & _)).
     pose proof (vcore_eq _ _ Hc) as (Hk & _).
     rewrite (sm_bus _ _ E). apply (view_ok_vcore _ _ _ _ _ s s' Hc Hp).
     eapply view_ok_ext; [apply (sm_rooms _ _ E)|reflexivity|]. apply V; auto. congruence.
@@ -532,7 +543,9 @@ Proof.
     destruct (s_conn t) as [c|] eqn:Hc.
     + split; cbn [fst snd forallb out_irr]; [now apply put_same_id|now rewrite Hm].
     + split; cbn [fst snd]; [|reflexivity]. apply (same_put h x t); [exact Ht|reflexivity|].
-      split; [intros Hn; congruence|]. intros v. cbn. now apply replay_enqueue_irr.
+      split; [intros Hn; congruence|]. split; [intros v; cbn; now apply replay_enqueue_irr|].
+      intros m0 Hm0. cbn in Hm0. unfold enqueue in Hm0. destruct (is_chat_refresh m && existsb is_chat_refresh (s_pending t)); [now left|].
+      apply in_app_iff in Hm0 as [?|[<-|[]]]; [now left|right]. destruct m; try discriminate; reflexivity.
   - unfold deliver_to_session. rewrite Ht. apply quiet_ret.
 Qed.
 
@@ -643,9 +656,11 @@ Proof.
     + cbn in Hsu, Hm. eapply Ha; eauto.
   - exact (j_fresh_view _ _ H).
   - exact (j_fresh_bind _ _ H).
+  - exact (j_live _ _ H).
   - intros sid s Hs. rewrite clock_publish. pose proof (j_join _ _ H sid s Hs). lia.
   - exact (j_backend _ _ H).
   - exact (j_pc _ _ H).
+  - exact (j_nohello _ _ H).
   - exact (j_vconn _ _ H).
   - exact (j_cs _ _ H).
   - exact (j_bind _ _ H).
@@ -678,6 +693,7 @@ Proof.
   - intros p Hp. pose proof (j_times _ _ H p Hp). lia.
   - intros sid Hsid. apply H. lia.
   - intros c sid Hb'. pose proof (j_fresh_bind _ _ H c sid Hb'). lia.
+  - intros sid s Hg. pose proof (j_live _ _ H sid s Hg). lia.
   - intros sid s Hg. pose proof (j_join _ _ H sid s Hg). lia.
 Qed.
 
@@ -688,10 +704,11 @@ Lemma Jh_put h g sid s s' : Jh h g -> get_sess h sid = Some s ->
   (forall p b r i, In p (h_bus h) -> p_subj p = SubjBackendRoom b r -> p_msg p = ASessionJoined sid i ->
                    s_room s' = None \/ s_room s' = Some (b, r)) ->
   s_join s' <= h_clock h -> (forall k, s_room s' = Some k -> fst k = s_backend s') ->
-  (s_conn s' <> None -> s_pending s' = []) -> (is_virtual (s_kind s') = true -> s_conn s' = None) ->
+  (s_conn s' <> None -> s_pending s' = []) -> (forall m, In m (s_pending s') -> no_hello m = true) ->
+  (is_virtual (s_kind s') = true -> s_conn s' = None) ->
   (forall c, s_conn s' = Some c -> s_conn s = Some c) -> Jh (put_sess h sid s') g.
 Proof.
-  intros H Hs Ha Hj Hb Hp Hv Hc. constructor.
+  intros H Hs Ha Hj Hb Hp Hnh Hv Hc. constructor.
   - unfold put_sess. cbn [h_sessions set_sessions]. apply nodup_keys_aset, H.
   - exact (j_room0 _ _ H).
   - exact (j_times _ _ H).
@@ -701,9 +718,11 @@ Proof.
     + eapply (j_asj _ _ H); eauto.
   - exact (j_fresh_view _ _ H).
   - exact (j_fresh_bind _ _ H).
+  - intros x t Ht. rewrite get_put in Ht. destruct (N.eqb_spec x sid) as [->|]; eapply (j_live _ _ H); eauto.
   - intros x t Ht. rewrite get_put in Ht. destruct (N.eqb_spec x sid) as [->|]; [injection Ht as <-; exact Hj|eapply (j_join _ _ H); eauto].
   - intros x t k Ht. rewrite get_put in Ht. destruct (N.eqb_spec x sid) as [->|]; [injection Ht as <-; apply Hb|eapply (j_backend _ _ H); eauto].
   - intros x t Ht. rewrite get_put in Ht. destruct (N.eqb_spec x sid) as [->|]; [injection Ht as <-; exact Hp|eapply (j_pc _ _ H); eauto].
+  - intros x t m Ht. rewrite get_put in Ht. destruct (N.eqb_spec x sid) as [->|]; [injection Ht as <-; apply Hnh|eapply (j_nohello _ _ H); eauto].
   - intros x t Ht. rewrite get_put in Ht. destruct (N.eqb_spec x sid) as [->|]; [injection Ht as <-; exact Hv|eapply (j_vconn _ _ H); eauto].
   - intros x t c Ht Htc. rewrite get_put in Ht. destruct (N.eqb_spec x sid) as [->|].
     + injection Ht as <-. apply (j_cs _ _ H sid s c Hs). now apply Hc.
@@ -736,6 +755,7 @@ Proof.
   - apply (Jh_put h g sid s s' H Hs); auto.
     + intros k Hk'. congruence.
     + intros Hn. rewrite Hp. apply (j_pc _ _ H sid s Hs). congruence.
+    + intros m. rewrite Hp. apply (j_nohello _ _ H sid s m Hs).
     + intros Hv. rewrite Hc. apply (j_vconn _ _ H sid s Hs). congruence.
     + intros c. congruence.
   - apply Jv_put; [apply Jv_exempt, Jv_exempt, V|]. intros _ Hx. exfalso. apply Hx. now right.
@@ -909,9 +929,11 @@ Proof.
     + intros p b r x i t Hp Hsu Hmsg Ht. rewrite P3 in Hp. apply Hg' in Ht as [_ Ht]. eapply (j_asj _ _ H); eauto.
     + rewrite P5. apply H.
     + rewrite P5. apply H.
+    + intros x t Ht. apply Hg' in Ht as [_ Ht]. rewrite P5. eapply (j_live _ _ H); eauto.
     + intros x t Ht. apply Hg' in Ht as [_ Ht]. rewrite P4. eapply (j_join _ _ H); eauto.
     + intros x t k Ht. apply Hg' in Ht as [_ Ht]. eapply (j_backend _ _ H); eauto.
     + intros x t Ht. apply Hg' in Ht as [_ Ht]. eapply (j_pc _ _ H); eauto.
+    + intros x t m Ht. apply Hg' in Ht as [_ Ht]. eapply (j_nohello _ _ H); eauto.
     + intros x t Ht. apply Hg' in Ht as [_ Ht]. eapply (j_vconn _ _ H); eauto.
     + intros x t c Ht Hc. apply Hg' in Ht as [Hne Ht]. destruct (j_cs _ _ H x t c Ht Hc) as (cn & Hcn & Hcs).
       rewrite P6, detach_conn_get. destruct (s_conn s) as [c0|] eqn:Hc0; [|eauto].
@@ -926,9 +948,15 @@ Qed.
 Definition skept (s s1 : session) : Prop :=
   s_kind s1 = s_kind s /\ s_backend s1 = s_backend s /\ s_conn s1 = s_conn s /\ pend_ok s s1.
 Lemma skept_refl s : skept s s.
-Proof. repeat split; reflexivity. Qed.
+Proof. split; [reflexivity|]. split; [reflexivity|]. split; [reflexivity|apply pend_ok_refl]. Qed.
+Lemma skept_eq s s1 : s_kind s1 = s_kind s -> s_backend s1 = s_backend s -> s_conn s1 = s_conn s ->
+  s_pending s1 = s_pending s -> skept s s1.
+Proof. intros A B C D. split; [exact A|]. split; [exact B|]. split; [exact C|now apply pend_ok_eq]. Qed.
 Lemma pend_ok_trans s1 s2 s3 : s_conn s2 = s_conn s1 -> pend_ok s1 s2 -> pend_ok s2 s3 -> pend_ok s1 s3.
-Proof. intros Hc [A B] [C D]. split; [intros Hn; rewrite C, A; auto; congruence|intros v; now rewrite D, B]. Qed.
+Proof.
+  intros Hc (A & B & C) (D & E & F). split; [intros Hn; rewrite D, A; auto; congruence|]. split; [intros v; now rewrite E, B|].
+  intros m Hm. destruct (F m Hm) as [Hm'|]; [|now right]. now apply C.
+Qed.
 Lemma skept_trans s1 s2 s3 : skept s1 s2 -> skept s2 s3 -> skept s1 s3.
 Proof.
   intros (A1 & A2 & A3 & A4) (B1 & B2 & B3 & B4). repeat split; try congruence; eapply pend_ok_trans; eauto.
@@ -936,7 +964,7 @@ Qed.
 Lemma skept_same h h' x s s' : same h h' -> get_sess h x = Some s -> get_sess h' x = Some s' -> skept s s'.
 Proof.
   intros E H1 H2. destruct (same_get' _ _ _ _ E H1) as (s2 & H2' & Hc & Hp). assert (s2 = s') by congruence. subst.
-  apply vcore_eq in Hc as (A & B & _ & C & _). repeat split; auto; apply Hp.
+  apply vcore_eq in Hc as (A & B & _ & C & _). split; [exact A|]. split; [exact B|]. split; [exact C|exact Hp].
 Qed.
 
 Lemma get_room_remove h k x y : get_sess (room_remove h k x) y = get_sess h y.
@@ -949,25 +977,25 @@ Proof.
   2:{ exists s. cbn [fst]. split; [exact Hs|]. split; [exact Hk|apply skept_refl]. }
   destruct (is_virtual (s_kind s)).
   - cbn [fst]. rewrite get_room_remove, get_put, N.eqb_refl. eexists. split; [reflexivity|]. split; [reflexivity|].
-    repeat split; reflexivity.
+    apply skept_eq; reflexivity.
   - set (s1 := upd_sess s None 0 (s_conn s) (s_perms s) (s_pending s) [] 0).
     set (h2 := put_sess (rs_del h sid) sid s1).
     assert (H2 : get_sess h2 sid = Some s1) by (unfold h2; now rewrite get_put, N.eqb_refl).
     destruct (quiet_release_mcu h2 sid) as [E3 _]. destruct (release_mcu h2 sid) as [h3 o2]. cbn [fst snd] in *.
     destruct (same_get' _ _ _ _ E3 H2) as (s3 & H3 & Hc & Hp). rewrite get_room_remove. exists s3. split; [exact H3|].
     pose proof (vcore_eq _ _ Hc) as (A & B & C & D & _). split; [rewrite C; reflexivity|].
-    apply (skept_trans s s1 s3); [repeat split; reflexivity|]. eapply skept_same; eauto.
+    apply (skept_trans s s1 s3); [apply skept_eq; reflexivity|]. eapply skept_same; eauto.
 Qed.
 
 Lemma leave_room_other h sid notify y : y <> sid ->
   exists E : True, forall t, get_sess h y = Some t -> exists t', get_sess (fst (leave_room h sid notify)) y = Some t' /\ vcore t' = vcore t /\ pend_ok t t'.
 Proof.
   intros Hne. exists I. intros t Ht. unfold leave_room. destruct (get_sess h sid) as [s|] eqn:Hs.
-  2:{ exists t. cbn [fst]. repeat split; auto. }
+  2:{ exists t. cbn [fst]. split; [exact Ht|]. split; [reflexivity|apply pend_ok_refl]. }
   destruct (s_room s) as [k|] eqn:Hk.
-  2:{ exists t. cbn [fst]. repeat split; auto. }
+  2:{ exists t. cbn [fst]. split; [exact Ht|]. split; [reflexivity|apply pend_ok_refl]. }
   destruct (is_virtual (s_kind s)).
-  - cbn [fst]. rewrite get_room_remove, get_put_other, get_rs_del by exact Hne. exists t. repeat split; auto.
+  - cbn [fst]. rewrite get_room_remove, get_put_other, get_rs_del by exact Hne. exists t. split; [exact Ht|]. split; [reflexivity|apply pend_ok_refl].
   - set (s1 := upd_sess s None 0 (s_conn s) (s_perms s) (s_pending s) [] 0).
     set (h2 := put_sess (rs_del h sid) sid s1).
     assert (H2 : get_sess h2 y = Some t) by (unfold h2; now rewrite get_put_other, get_rs_del).
@@ -1055,6 +1083,7 @@ Proof.
     + change (s_room (sess_conn s None)) with (s_room s). change (s_backend (sess_conn s None)) with (s_backend s).
       intros k Hk. eapply (j_backend _ _ H); eauto.
     + intros Hn. contradiction.
+    + intros m. apply (j_nohello _ _ H sid s m Hs).
     + reflexivity.
     + discriminate.
   - apply Jv_put; [now apply Jv_exempt|]. intros Hv Hx. apply (view_ok_fields _ _ _ _ _ s); auto.
@@ -1143,4 +1172,354 @@ Proof.
   destruct (is_closing h1 c mm); [|exact J1].
   pose proof (Jg_close_conn xr xs h1 g c W1 J1) as J2. pose proof (close_conn_irr h1 c) as I2.
   destruct (close_conn h1 c) as [h2 o2]. cbn [fst snd] in *. eapply Jg_unirr; eauto.
+Qed.
+
+(* ------------------------------------------------------------------ the bus only grows, and not by "session joined" notices *)
+Definition not_asj (p : pub) : Prop := forall x i, p_msg p <> ASessionJoined x i.
+Definition grows (h h' : hub) : Prop := exists l, h_bus h' = h_bus h ++ l /\ forall p, In p l -> not_asj p.
+
+Lemma grows_eq h h' : h_bus h' = h_bus h -> grows h h'.
+Proof. intros E. exists []. rewrite app_nil_r. split; [exact E|intros p []]. Qed.
+Lemma grows_refl h : grows h h.
+Proof. now apply grows_eq. Qed.
+Lemma grows_trans h1 h2 h3 : grows h1 h2 -> grows h2 h3 -> grows h1 h3.
+Proof.
+  intros (l1 & E1 & N1) (l2 & E2 & N2). exists (l1 ++ l2). split; [rewrite E2, E1; now rewrite app_assoc|].
+  intros p Hp. apply in_app_iff in Hp as [Hp|Hp]; auto.
+Qed.
+Lemma grows_same h h' : same h h' -> grows h h'.
+Proof. intros E. apply grows_eq, E. Qed.
+Lemma grows_publish h subj m : (forall x i, m <> ASessionJoined x i) -> grows h (publish h subj m).
+Proof. intros Hm. eexists. split; [apply bus_publish|]. intros p [<-|[]]. exact Hm. Qed.
+
+Lemma grows_room_remove h k sid : grows h (room_remove h k sid).
+Proof.
+  destruct (room_of h k) as [r|] eqn:Hr.
+  2:{ unfold room_remove. rewrite Hr. apply grows_refl. }
+  destruct (nmem sid (r_members r)) eqn:Hm.
+  2:{ unfold room_remove. rewrite Hr, Hm. apply grows_refl. }
+  destruct (room_remove_facts h k sid r Hr Hm) as (h2 & -> & _ & Hb2 & _).
+  eapply grows_trans; [apply grows_eq; exact Hb2|]. apply grows_publish. discriminate.
+Qed.
+
+Lemma grows_leave_room h sid notify : grows h (fst (leave_room h sid notify)).
+Proof.
+  unfold leave_room. destruct (get_sess h sid) as [s|]; [|apply grows_refl]. destruct (s_room s) as [k|]; [|apply grows_refl].
+  destruct (is_virtual (s_kind s)).
+  - cbn [fst]. eapply grows_trans; [|apply grows_room_remove]. apply grows_eq. cbn. unfold rs_del, rs_set. cbn.
+    destruct (aget (h_rs1 h) sid); reflexivity.
+  - match goal with |- context [release_mcu ?hh sid] => destruct (quiet_release_mcu hh sid) as [E _]; destruct (release_mcu hh sid) as [h3 o2];
+      assert (G : grows h hh) end.
+    { apply grows_eq. cbn. unfold rs_del, rs_set. cbn. destruct (aget (h_rs1 h) sid); reflexivity. }
+    cbn [fst snd] in *. eapply grows_trans; [exact G|]. eapply grows_trans; [apply grows_same; exact E|apply grows_room_remove].
+Qed.
+
+Lemma grows_close_one h sid : grows h (fst (close_one h sid)).
+Proof.
+  unfold close_one. destruct (get_sess h sid) as [s|]; [|apply grows_refl].
+  pose proof (grows_leave_room h sid true) as G1. destruct (leave_room h sid true) as [h1 o1].
+  destruct (quiet_release_mcu h1 sid) as [E2 _]. destruct (release_mcu h1 sid) as [h2a o2a]. cbn [fst snd] in *.
+  match goal with |- context [scrub ?hh sid] => set (h2 := hh) end.
+  assert (G : grows h (drop_vt (detach_conn (scrub h2 sid) (s_conn s)) (s_kind s) sid)).
+  { eapply grows_trans; [exact G1|]. eapply grows_trans; [apply grows_same; exact E2|].
+    apply grows_eq. destruct (removal_proj h2 sid (s_conn s) (s_kind s)) as (_ & _ & P3 & _). exact P3. }
+  destruct (s_kind s); exact G.
+Qed.
+Lemma grows_close_all kids : forall hh oo, grows hh (fst (close_all kids (hh, oo))).
+Proof.
+  induction kids as [|k kids IH]; intros hh oo; cbn [close_all fold_left fst]; [apply grows_refl|].
+  pose proof (grows_close_one hh k) as G1. destruct (close_one hh k) as [h1 o1]. cbn [fst] in G1.
+  fold (close_all kids (h1, oo ++ o1)). eapply grows_trans; [exact G1|apply IH].
+Qed.
+Lemma grows_close_session h sid : grows h (fst (close_session h sid)).
+Proof.
+  unfold close_session. pose proof (grows_close_one h sid) as G1. destruct (close_one h sid) as [h1 o1]. cbn [fst] in G1.
+  fold (close_all (children h sid) (h1, o1)). eapply grows_trans; [exact G1|apply grows_close_all].
+Qed.
+Lemma grows_close_conn h c : grows h (fst (close_conn h c)).
+Proof.
+  unfold close_conn. destruct (aget (h_conns h) c) as [cn|]; [|apply grows_refl].
+  destruct (c_sess cn) as [sid|]; [|apply grows_eq; reflexivity].
+  match goal with |- context [close_session ?hh sid] => pose proof (grows_close_session hh sid) as G; destruct (close_session hh sid) as [h3 o3];
+    assert (G0 : grows h hh) end.
+  { apply grows_eq. destruct (get_sess _ sid); reflexivity. }
+  cbn [fst] in *. eapply grows_trans; eauto.
+Qed.
+Lemma grows_send_conn h c m : grows h (fst (send_conn h c m)).
+Proof.
+  unfold send_conn. destruct (aget (h_conns h) c); [|apply grows_refl]. destruct (is_closing h c m); [|apply grows_refl].
+  pose proof (grows_close_conn h c) as G. destruct (close_conn h c). exact G.
+Qed.
+
+(* ------------------------------------------------------------------ the other holder of a room session id is removed *)
+Lemma Jg_drop_exempt xr xs h g sid : Jg xr (or_sid xs sid) h g -> get_sess h sid = None -> Jg xr xs h g.
+Proof.
+  intros [H V] Hn. split; [exact H|]. intros x t Ht Hv Hx. apply V; auto. intros [A| ->]; [contradiction|congruence].
+Qed.
+
+Lemma kick_irr h rs : forallb out_irr (snd (kick_room_session h rs)) = true.
+Proof.
+  unfold kick_room_session. destruct (aget (h_rs2 h) rs) as [sid'|]; [|reflexivity].
+  destruct (get_sess h sid') as [s'|]; [|reflexivity].
+  pose proof (leave_room_irr h sid' false) as I1. destruct (leave_room h sid' false) as [h1 o1].
+  assert (I2 : forall c', forallb out_irr (snd (send_conn h1 c' (SBye B_room_session_reconnected))) = true) by (intros; now apply send_conn_irr).
+  assert (I3 : forall hh, forallb out_irr (snd (close_session hh sid')) = true) by (intros; apply close_session_irr).
+  cbn [snd] in I1.
+  destruct (s_kind s'); destruct (s_conn s') as [c'|];
+    try (specialize (I2 c'); destruct (send_conn h1 c' (SBye B_room_session_reconnected)) as [h2 o2]);
+    match goal with |- context [close_session ?hh sid'] => specialize (I3 hh); destruct (close_session hh sid') as [h3 o3] end;
+    cbn [snd] in *; rewrite !forallb_app, I1, ?I2, I3; reflexivity.
+Qed.
+
+Lemma kick_all xr xs h g rs : WFg xr none1 h -> Jg xr xs h g ->
+  Jg xr xs (fst (kick_room_session h rs)) g /\ grows h (fst (kick_room_session h rs)).
+Proof.
+  intros W HJ. unfold kick_room_session. destruct (aget (h_rs2 h) rs) as [sid'|]; [|split; [exact HJ|apply grows_refl]].
+  destruct (get_sess h sid') as [s'|] eqn:Hs'.
+  2:{ cbn [fst]. split; [now apply Jg_publish_neutral|apply grows_publish; discriminate]. }
+  pose proof (Jg_leave_room xr none1 xs h g sid' false W HJ) as J1. pose proof (wf_leave_room xr none1 h sid' false W) as W1.
+  pose proof (leave_room_irr h sid' false) as I1. pose proof (grows_leave_room h sid' false) as G1.
+  destruct (leave_room h sid' false) as [h1 o1]. cbn [fst snd] in *.
+  apply (Jg_unirr _ _ _ _ _ I1) in J1.
+  assert (Hfin : forall h2, WFg xr none1 h2 -> Jg xr (or_sid xs sid') h2 g -> grows h h2 ->
+           Jg xr xs (fst (close_session h2 sid')) g /\ grows h (fst (close_session h2 sid'))).
+  { intros h2 W2 J2 G2. split.
+    - apply Jg_drop_exempt with (sid := sid'); [|apply close_session_gone].
+      eapply Jg_unirr; [apply close_session_irr|]. now apply (Jg_close_session xr none1).
+    - eapply grows_trans; [exact G2|apply grows_close_session]. }
+  assert (Hsend : forall c', Jg xr xs (fst (let '(h2, o2) := send_conn h1 c' (SBye B_room_session_reconnected) in
+                     let '(h3, o3) := close_session h2 sid' in (h3, o1 ++ o2 ++ o3))) g /\
+                   grows h (fst (let '(h2, o2) := send_conn h1 c' (SBye B_room_session_reconnected) in
+                     let '(h3, o3) := close_session h2 sid' in (h3, o1 ++ o2 ++ o3)))).
+  { intros c'. pose proof (Jg_send_conn xr (or_sid xs sid') h1 g c' (SBye B_room_session_reconnected) eq_refl W1 J1) as J2.
+    pose proof (wf_send_conn xr h1 c' (SBye B_room_session_reconnected) W1) as W2.
+    pose proof (send_conn_irr h1 c' (SBye B_room_session_reconnected) eq_refl) as I2.
+    pose proof (grows_send_conn h1 c' (SBye B_room_session_reconnected)) as G2.
+    destruct (send_conn h1 c' (SBye B_room_session_reconnected)) as [h2 o2]. cbn [fst snd] in *.
+    apply (Jg_unirr _ _ _ _ _ I2) in J2.
+    specialize (Hfin h2 W2 J2 (grows_trans _ _ _ G1 G2)). destruct (close_session h2 sid') as [h3 o3]. exact Hfin. }
+  assert (Hnone : Jg xr xs (fst (let '(h3, o3) := close_session h1 sid' in (h3, o1 ++ [] ++ o3))) g /\
+                  grows h (fst (let '(h3, o3) := close_session h1 sid' in (h3, o1 ++ [] ++ o3)))).
+  { specialize (Hfin h1 W1 J1 G1). destruct (close_session h1 sid') as [h3 o3]. exact Hfin. }
+  destruct (s_kind s'); destruct (s_conn s') as [c'|]; try apply Hsend; exact Hnone.
+Qed.
+
+(* ------------------------------------------------------------------ hello *)
+Lemma Jg_set_conn xr xs h g c cn' : Jg xr xs h g -> (forall x s, get_sess h x = Some s -> s_conn s <> Some c) ->
+  Jg xr xs (set_conns h (aset (h_conns h) c cn')) g.
+Proof.
+  intros [H V] Hno. split; [|exact V]. constructor; try apply H.
+  intros x s c' Hs Hc. destruct (j_cs _ _ H x s c' Hs Hc) as (cn & Hcn & Hcs). exists cn. split; [|exact Hcs].
+  cbn [h_conns set_conns]. rewrite aget_aset_other; [exact Hcn|]. intros ->. eapply Hno; eauto.
+Qed.
+
+Lemma Jg_new_session xr xs h g F c sid ns u addr :
+  Jg xr xs h g -> get_sess h sid = None -> h_nextsid h < sid ->
+  (forall x s, get_sess h x = Some s -> s_conn s <> Some c) ->
+  h_sessions F = aset (h_sessions h) sid ns -> h_rooms F = h_rooms h -> h_bus F = h_bus h -> h_clock F = h_clock h ->
+  h_nextsid F = sid -> h_conns F = aset (h_conns h) c (mkconn addr (Some sid) false) ->
+  s_room ns = None -> s_conn ns = Some c -> s_pending ns = [] -> is_virtual (s_kind ns) = false -> s_join ns <= h_clock h ->
+  Jg xr xs F (gout g (ToConn c (SHello sid u))).
+Proof.
+  intros [H V] Hfresh Hlt Hno Ps Pr Pb Pc Pn Pcn Nr Ncn Np Nv Nj.
+  assert (Hg : forall x, get_sess F x = if N.eqb x sid then Some ns else get_sess h x).
+  { intros x. unfold get_sess. rewrite Ps. apply aget_aset. }
+  assert (Hm : forall k, mem_of F k = mem_of h k) by (intros k; unfold mem_of, room_of; now rewrite Pr).
+  cbn [gout]. split.
+  - constructor; cbn [g_bind g_view].
+    + rewrite Ps. apply nodup_keys_aset, H.
+    + intros k r Hr. unfold room_of in Hr. rewrite Pr in Hr. eapply (j_room0 _ _ H); eauto.
+    + rewrite Pb, Pc. apply H.
+    + rewrite Pb. apply H.
+    + intros p b r x i t Hp Hsu Hmsg Ht. rewrite Pb in Hp. rewrite Hg in Ht. destruct (N.eqb_spec x sid) as [->|].
+      * injection Ht as <-. now left.
+      * eapply (j_asj _ _ H); eauto.
+    + intros x Hx. rewrite Pn in Hx. apply H. lia.
+    + intros c' x. rewrite Pn. destruct (N.eqb_spec c' c) as [->|].
+      * intros Hx. injection Hx as <-. apply N.le_refl.
+      * intros Hx. pose proof (j_fresh_bind _ _ H c' x Hx). lia.
+    + intros x t Ht. rewrite Pn. rewrite Hg in Ht. destruct (N.eqb_spec x sid) as [->|]; [apply N.le_refl|].
+      pose proof (j_live _ _ H x t Ht). lia.
+    + intros x t Ht. rewrite Pc. rewrite Hg in Ht. destruct (N.eqb_spec x sid) as [->|]; [injection Ht as <-; exact Nj|eapply (j_join _ _ H); eauto].
+    + intros x t k Ht. rewrite Hg in Ht. destruct (N.eqb_spec x sid) as [->|]; [injection Ht as <-; congruence|eapply (j_backend _ _ H); eauto].
+    + intros x t Ht. rewrite Hg in Ht. destruct (N.eqb_spec x sid) as [->|]; [injection Ht as <-; auto|eapply (j_pc _ _ H); eauto].
+    + intros x t m Ht. rewrite Hg in Ht. destruct (N.eqb_spec x sid) as [->|]; [injection Ht as <-; rewrite Np; intros []|eapply (j_nohello _ _ H); eauto].
+    + intros x t Ht. rewrite Hg in Ht. destruct (N.eqb_spec x sid) as [->|]; [injection Ht as <-; congruence|eapply (j_vconn _ _ H); eauto].
+    + intros x t c' Ht Hc'. rewrite Pcn. rewrite Hg in Ht. destruct (N.eqb_spec x sid) as [->|].
+      * injection Ht as <-. assert (c' = c) by congruence. subst c'. rewrite aget_aset_same. eauto.
+      * rewrite aget_aset_other; [eapply (j_cs _ _ H); eauto|]. intros ->. eapply Hno; eauto.
+    + intros x t c' Ht Hc'. rewrite Hg in Ht. destruct (N.eqb_spec x sid) as [->|].
+      * injection Ht as <-. assert (c' = c) by congruence. subst c'. now rewrite N.eqb_refl.
+      * destruct (N.eqb_spec c' c) as [->|]; [exfalso; eapply Hno; eauto|eapply (j_bind _ _ H); eauto].
+  - rewrite Pb. intros x t Ht Hv Hx. cbn [g_view]. rewrite Hg in Ht. destruct (N.eqb_spec x sid) as [->|].
+    + injection Ht as <-. unfold view_ok. rewrite Nr, Np. cbn. apply H. exact Hlt.
+    + eapply view_ok_ext; [exact Hm|reflexivity|]. now apply V.
+Qed.
+
+Lemma Jg_register xr xs h g c cn b k u : is_virtual k = false ->
+  (forall x s, get_sess h x = Some s -> s_conn s <> Some c) -> Jg xr xs h g ->
+  Jg xr xs (fst (register h c cn b k u)) (gouts g (snd (register h c cn b k u))).
+Proof.
+  intros Hk Hno HJ. unfold register.
+  assert (E0 : same h (set_nextsid h (next_id h))).
+  { apply same_fields; try reflexivity; try apply N.le_refl. cbn. apply N.lt_le_incl, next_id_gt. }
+  match goal with |- context [if ?b then _ else _] => destruct b end.
+  - cbn [fst snd]. apply Jg_irr; [reflexivity|]. apply Jg_set_conn; [eapply Jg_same; eauto|exact Hno].
+  - cbn [fst snd gouts fold_left].
+    eapply (Jg_new_session xr xs h g _ c (next_id h) (new_session b k u c) u (c_addr cn)); try exact HJ; try exact Hno.
+    + apply next_id_fresh.
+    + apply next_id_gt.
+    + destruct (negb (is_internal k) && negb (N.eqb (limit_of h b) 0)); destruct (N.eqb u 0 && negb (is_internal k));
+        try reflexivity; destruct k as [|f d|]; try reflexivity; destruct d; reflexivity.
+    + destruct (negb (is_internal k) && negb (N.eqb (limit_of h b) 0)); destruct (N.eqb u 0 && negb (is_internal k));
+        try reflexivity; destruct k as [|f d|]; try reflexivity; destruct d; reflexivity.
+    + destruct (negb (is_internal k) && negb (N.eqb (limit_of h b) 0)); destruct (N.eqb u 0 && negb (is_internal k));
+        try reflexivity; destruct k as [|f d|]; try reflexivity; destruct d; reflexivity.
+    + destruct (negb (is_internal k) && negb (N.eqb (limit_of h b) 0)); destruct (N.eqb u 0 && negb (is_internal k));
+        try reflexivity; destruct k as [|f d|]; try reflexivity; destruct d; reflexivity.
+    + destruct (negb (is_internal k) && negb (N.eqb (limit_of h b) 0)); destruct (N.eqb u 0 && negb (is_internal k));
+        try reflexivity; destruct k as [|f d|]; try reflexivity; destruct d; reflexivity.
+    + destruct (negb (is_internal k) && negb (N.eqb (limit_of h b) 0)); destruct (N.eqb u 0 && negb (is_internal k));
+        try reflexivity; destruct k as [|f d|]; try reflexivity; destruct d; reflexivity.
+    + reflexivity.
+    + reflexivity.
+    + reflexivity.
+    + exact Hk.
+    + apply N.le_0_l.
+Qed.
+
+(* ---- resume ---- *)
+Lemma gout_msg g c m n : no_hello m = true -> g_bind g c = Some n ->
+  gout g (ToConn c m) = mkg (g_bind g) (fun x => if N.eqb x n then apply_view (g_view g n) m else g_view g x).
+Proof. intros Hm Hb. destruct m; try discriminate Hm; cbn [gout]; rewrite Hb; reflexivity. Qed.
+
+Lemma gouts_flush l : forall g c n, g_bind g c = Some n -> (forall m, In m l -> no_hello m = true) ->
+  (forall c', g_bind (gouts g (flush c l)) c' = g_bind g c') /\
+  (forall x, g_view (gouts g (flush c l)) x = if N.eqb x n then replay l (g_view g n) else g_view g x).
+Proof.
+  induction l as [|m l IH]; intros g c n Hb Hl.
+  - cbn. split; [reflexivity|]. intros x. destruct (N.eqb x n) eqn:E; [apply N.eqb_eq in E; now subst|reflexivity].
+  - cbn [flush map]. rewrite gouts_cons, (gout_msg g c m n (Hl m (or_introl eq_refl)) Hb).
+    destruct (IH (mkg (g_bind g) (fun x => if N.eqb x n then apply_view (g_view g n) m else g_view g x)) c n Hb
+                 (fun m' Hm' => Hl m' (or_intror Hm'))) as [A B].
+    split; [exact A|]. intros x. rewrite B. cbn [g_view]. rewrite N.eqb_refl. destruct (N.eqb x n); reflexivity.
+Qed.
+
+Definition on_conn (s : session) (c0 : N) : bool := match s_conn s with Some c' => N.eqb c0 c' | None => false end.
+
+Lemma Jg_resume xr xs h g F g' c n s addr :
+  Jg xr xs h g -> get_sess h n = Some s -> is_virtual (s_kind s) = false ->
+  (forall x t, get_sess h x = Some t -> s_conn t <> Some c) ->
+  (forall x, get_sess F x = if N.eqb x n then Some (sess_pending (sess_conn s (Some c)) []) else get_sess h x) ->
+  map fst (h_sessions F) = map fst (h_sessions h) -> h_rooms F = h_rooms h -> h_bus F = h_bus h -> h_clock F = h_clock h ->
+  h_nextsid F = h_nextsid h ->
+  (forall c0, aget (h_conns F) c0 = if N.eqb c0 c then Some (mkconn addr (Some n) false)
+                                    else if on_conn s c0 then None else aget (h_conns h) c0) ->
+  (forall c0, g_bind g' c0 = if N.eqb c0 c then Some n else g_bind g c0) ->
+  (forall x, g_view g' x = if N.eqb x n then replay (s_pending s) (g_view g n) else g_view g x) ->
+  Jg xr xs F g'.
+Proof.
+  intros [H V] Hs Hv Hno Hg Pk Pr Pb Pc Pn Pcn Gb Gv.
+  assert (Hm : forall k, mem_of F k = mem_of h k) by (intros k; unfold mem_of, room_of; now rewrite Pr).
+  split.
+  - constructor.
+    + rewrite Pk. apply H.
+    + intros k r Hr. unfold room_of in Hr. rewrite Pr in Hr. eapply (j_room0 _ _ H); eauto.
+    + rewrite Pb, Pc. apply H.
+    + rewrite Pb. apply H.
+    + intros p b r x i t Hp Hsu Hmsg Ht. rewrite Pb in Hp. rewrite Hg in Ht. destruct (N.eqb_spec x n) as [->|].
+      * injection Ht as <-. cbn. eapply (j_asj _ _ H); eauto.
+      * eapply (j_asj _ _ H); eauto.
+    + intros x Hx. rewrite Pn in Hx. rewrite Gv. destruct (N.eqb_spec x n) as [->|]; [|now apply H].
+      pose proof (j_live _ _ H n s Hs). lia.
+    + intros c0 x. rewrite Pn, Gb. destruct (N.eqb_spec c0 c) as [->|]; [|apply (j_fresh_bind _ _ H)].
+      intros Hx. injection Hx as <-. eapply (j_live _ _ H); eauto.
+    + intros x t Ht. rewrite Pn. rewrite Hg in Ht. destruct (N.eqb_spec x n) as [->|]; eapply (j_live _ _ H); eauto.
+    + intros x t Ht. rewrite Pc. rewrite Hg in Ht. destruct (N.eqb_spec x n) as [->|]; [injection Ht as <-; cbn|]; eapply (j_join _ _ H); eauto.
+    + intros x t k Ht. rewrite Hg in Ht. destruct (N.eqb_spec x n) as [->|]; [injection Ht as <-; cbn|]; eapply (j_backend _ _ H); eauto.
+    + intros x t Ht. rewrite Hg in Ht. destruct (N.eqb_spec x n) as [->|]; [injection Ht as <-; reflexivity|eapply (j_pc _ _ H); eauto].
+    + intros x t m Ht. rewrite Hg in Ht. destruct (N.eqb_spec x n) as [->|]; [injection Ht as <-; intros []|eapply (j_nohello _ _ H); eauto].
+    + intros x t Ht. rewrite Hg in Ht. destruct (N.eqb_spec x n) as [->|]; [injection Ht as <-; cbn; congruence|eapply (j_vconn _ _ H); eauto].
+    + intros x t c0 Ht Hc0. rewrite Pcn. rewrite Hg in Ht. destruct (N.eqb_spec x n) as [->|Hne].
+      * injection Ht as <-. cbn in Hc0. injection Hc0 as <-. rewrite N.eqb_refl. eauto.
+      * destruct (N.eqb_spec c0 c) as [->|]; [exfalso; eapply Hno; eauto|].
+        destruct (j_cs _ _ H x t c0 Ht Hc0) as (cn & Hcn & Hcs).
+        unfold on_conn. destruct (s_conn s) as [c'|] eqn:Hc'; [|eauto].
+        destruct (N.eqb_spec c0 c') as [->|]; [|eauto].
+        destruct (j_cs _ _ H n s c' Hs Hc') as (cn' & Hcn' & Hcs'). congruence.
+    + intros x t c0 Ht Hc0. rewrite Gb. rewrite Hg in Ht. destruct (N.eqb_spec x n) as [->|Hne].
+      * injection Ht as <-. cbn in Hc0. injection Hc0 as <-. now rewrite N.eqb_refl.
+      * destruct (N.eqb_spec c0 c) as [->|]; [exfalso; eapply Hno; eauto|eapply (j_bind _ _ H); eauto].
+  - rewrite Pb. intros x t Ht Hvt Hx. rewrite Gv. rewrite Hg in Ht. destruct (N.eqb_spec x n) as [->|].
+    + injection Ht as <-. specialize (V n s Hs Hv Hx). eapply view_ok_ext; [exact Hm|reflexivity|].
+      unfold view_ok in *. cbn [s_room s_pending s_seen s_join sess_pending sess_conn upd_sess replay fold_left]. exact V.
+    + eapply view_ok_ext; [exact Hm|reflexivity|]. now apply V.
+Qed.
+
+Lemma keys_put_in h x s s' : get_sess h x = Some s -> map fst (h_sessions (put_sess h x s')) = map fst (h_sessions h).
+Proof. intros H. unfold put_sess. cbn [h_sessions set_sessions]. apply keys_aset_in. unfold get_sess in H. congruence. Qed.
+
+Lemma Jg_do_hello xr xs h g c cn hl :
+  (forall x s, get_sess h x = Some s -> s_conn s <> Some c) -> Jg xr xs h g ->
+  Jg xr xs (fst (do_hello h c cn hl)) (gouts g (snd (do_hello h c cn hl))).
+Proof.
+  intros Hno HJ. unfold do_hello.
+  assert (Jexp : forall h0 e, same h h0 -> (forall x, get_sess h0 x = get_sess h x) ->
+            Jg xr xs (set_conns h0 (aset (h_conns h0) c (mkconn (c_addr cn) None true))) (gouts g [ToConn c (SError e)])).
+  { intros h0 e E Eg. apply Jg_irr; [reflexivity|]. apply Jg_set_conn; [eapply Jg_same; eauto|].
+    intros x s Hx. rewrite Eg in Hx. eapply Hno; eauto. }
+  assert (Jerr : forall e, Jg xr xs h (gouts g [ToConn c (SError e)])) by (intros e; now apply Jg_irr).
+  destruct hl as [b u rej|b u t|b tok f d|i].
+  - destruct (h_nb h <=? b); [apply Jexp; [apply same_refl|reflexivity]|].
+    destruct rej.
+    { cbn [fst snd]. rewrite gouts_cons. apply Jexp; [apply same_refl|reflexivity]. }
+    pose proof (Jg_register xr xs h g c cn b KClient u eq_refl Hno HJ) as J1.
+    destruct (register h c cn b KClient u) as [h1 o1]. exact J1.
+  - destruct (v2_check (h_nb h) b t); [now apply Jg_register|apply Jexp; [apply same_refl|reflexivity]].
+  - destruct (throttled h (c_addr cn) ACT_INTERNAL); [apply Jexp; [apply same_refl|reflexivity]|].
+    destruct (negb (N.eqb tok 0)); [apply Jexp; [apply same_record_failure|reflexivity]|].
+    destruct (h_nb h <=? b); [apply Jexp; [apply same_record_failure|reflexivity]|].
+    now apply Jg_register.
+  - destruct (throttled h (c_addr cn) ACT_RESUME); [apply Jerr|].
+    destruct i as [n|n|k|n];
+      try (apply Jg_irr; [reflexivity|]; cbn [fst]; eapply Jg_same; [apply same_record_failure|exact HJ]).
+    destruct (get_sess h n) as [s|] eqn:Hs; [|apply Jerr].
+    destruct (is_virtual (s_kind s)) eqn:Hv; [apply Jerr|].
+    set (P := match s_conn s with
+              | Some c' => if N.eqb c' c then (h, [])
+                           else send_conn (match aget (h_conns h) c' with
+                                           | Some cn' => set_conns h (aset (h_conns h) c' (mkconn (c_addr cn') None (c_expect cn')))
+                                           | None => h end) c' (SBye B_session_resumed)
+              | None => (h, []) end).
+    assert (HP : forallb out_irr (snd P) = true /\ h_sessions (fst P) = h_sessions h /\ h_rooms (fst P) = h_rooms h /\
+                 h_bus (fst P) = h_bus h /\ h_clock (fst P) = h_clock h /\ h_nextsid (fst P) = h_nextsid h /\
+                 forall c0, aget (h_conns (fst P)) c0 = if on_conn s c0 then None else aget (h_conns h) c0).
+    { unfold P, on_conn. destruct (s_conn s) as [c'|] eqn:Hcs; [|repeat split; reflexivity].
+      destruct (N.eqb_spec c' c) as [->|Hne]; [exfalso; eapply Hno; eauto|].
+      destruct (aget (h_conns h) c') as [cn'|] eqn:Hc'.
+      - unfold send_conn. cbn [h_conns set_conns]. rewrite aget_aset_same. cbn [is_closing].
+        unfold close_conn. cbn [h_conns set_conns]. rewrite aget_aset_same. cbn [c_sess fst snd].
+        repeat split; try reflexivity. intros c0. cbn [h_conns set_conns]. rewrite aget_adel.
+        destruct (N.eqb_spec c0 c'); [reflexivity|now apply aget_aset_other].
+      - unfold send_conn. rewrite Hc'. repeat split; try reflexivity. intros c0. cbn [fst].
+        destruct (N.eqb_spec c0 c') as [->|]; [exact Hc'|reflexivity]. }
+    destruct P as [h1 outs1]. cbn [fst snd] in HP. destruct HP as (I1 & Ps & Pr & Pb & Pc & Pn & Pcn). cbn [fst snd].
+    assert (Hs1 : get_sess h1 n = Some s) by (unfold get_sess; now rewrite Ps).
+    destruct (gouts_irr outs1 g I1) as [Gb1 Gv1].
+    set (g2 := gout (gouts g outs1) (ToConn c (SHello n (sess_userid h n s)))).
+    assert (Hb2 : g_bind g2 c = Some n) by (unfold g2; cbn; now rewrite N.eqb_refl).
+    destruct (gouts_flush (s_pending s) g2 c n Hb2 (fun m Hm => j_nohello _ _ (proj1 HJ) n s m Hs Hm)) as [Gb3 Gv3].
+    rewrite gouts_app, gouts_cons. fold g2.
+    eapply (Jg_resume xr xs h g _ _ c n s (c_addr cn) HJ Hs Hv Hno).
+    + intros x. unfold get_sess at 1. cbn [h_sessions set_conns set_clients set_expired put_sess set_sessions].
+      rewrite Ps. apply aget_aset.
+    + cbn [h_sessions set_conns set_clients set_expired]. rewrite (keys_put_in h1 n s _ Hs1). now rewrite Ps.
+    + exact Pr.
+    + exact Pb.
+    + exact Pc.
+    + exact Pn.
+    + intros c0. cbn [h_conns set_conns set_clients set_expired put_sess set_sessions]. rewrite aget_aset.
+      destruct (N.eqb c0 c); [reflexivity|apply Pcn].
+    + intros c0. rewrite Gb3. unfold g2. cbn [gout g_bind]. destruct (N.eqb c0 c); [reflexivity|apply Gb1].
+    + intros x. rewrite Gv3. unfold g2. cbn [gout g_view]. rewrite !Gv1. reflexivity.
 Qed.
